@@ -72,7 +72,7 @@ def run(rep, tier, seed, model_ok=True, effort=1):
     r = common.rng(seed, "c14")
     rep.rule = ("(1) cal_info vs model: range checksums over whole day ranges evaluated inside Coq; (2) every dotted coherent pairing "
                 "(51 patterns) rendered on consecutive days and compared with version.parse_version; (3) every rejected pairing must be refused "
-                "by incr and shown non-monotone; (4) bump-level: incr with later/earlier dates never lowers the calendar parts; "
+                "by incr and shown non-monotone; (4) bump-level: incr with later/earlier dates never lowers the calendar parts (turn of every year, day 366, week 0, successive run days without --date in one process); "
                 "non-trivial = distinct (pattern, day) whose rendering differs from the previous day")
     pv = version.parse_version
     # ---- (1) calendar correspondence by checksums
